@@ -58,6 +58,14 @@ pub mod chrono {
         /// (floor: instants before the epoch give negative values)
         #[verifier::external_body]
         pub fn timestamp(&self) -> (r: i64) ensures r == self.secs { unimplemented!() }
+        /// chrono: "Returns the number of non-leap-milliseconds since January 1, 1970 UTC" (floor)
+        #[verifier::external_body]
+        pub fn timestamp_millis(&self) -> (r: i64)
+            requires -9_000_000_000_000_000 < self.secs < 9_000_000_000_000_000,
+            ensures r == self.secs * 1000 + (self.nanos / 1_000_000) as int { unimplemented!() }
+        /// chrono: "Returns the number of nanoseconds since the last second boundary"
+        #[verifier::external_body]
+        pub fn timestamp_subsec_nanos(&self) -> (r: u32) ensures r == self.nanos { unimplemented!() }
     }
 }
 pub assume_specification<T, E, U, F>[ Result::<T, E>::and_then ](r: Result<T, E>, op: F) -> (res: Result<U, E>)
